@@ -102,6 +102,8 @@ type Recorder struct {
 	hook      atomic.Value // Hook
 	CtxKey    interface{}
 	openStmtQ map[int64]string
+	crashed   int32
+	live      map[int64]*conn
 	// FirstIDMode makes LastInsertId report the first id of a multi-row insert
 	// (MySQL-like) instead of the last (SQLite).
 	FirstIDMode bool
@@ -118,9 +120,38 @@ func (r *Recorder) SetHook(h Hook) {
 	r.hook.Store(h)
 }
 
+// ErrCrash, returned by a Hook, simulates the death of the process as far as the database
+// can tell: every open connection is dropped on the spot (SQLite rolls back whatever
+// transaction was open on it, nothing else is undone), the call and every later call fail
+// with driver.ErrBadConn and no new connection can be made until Uncrash.
+var ErrCrash = errors.New("verif: simulated crash")
+
+func (r *Recorder) Crashed() bool { return atomic.LoadInt32(&r.crashed) == 1 }
+
+func (r *Recorder) Uncrash() { atomic.StoreInt32(&r.crashed, 0) }
+
 func (r *Recorder) callHook(ev *Event) error {
+	if r.Crashed() {
+		return driver.ErrBadConn
+	}
 	if h, ok := r.hook.Load().(Hook); ok && h != nil {
-		return h(ev)
+		err := h(ev)
+		if err == ErrCrash {
+			atomic.StoreInt32(&r.crashed, 1)
+			r.mu.Lock()
+			conns := make([]*conn, 0, len(r.live))
+			for _, c := range r.live {
+				conns = append(conns, c)
+			}
+			r.live = map[int64]*conn{}
+			r.mu.Unlock()
+			for _, c := range conns {
+				c.bad = true
+				c.base.Close()
+			}
+			return driver.ErrBadConn
+		}
+		return err
 	}
 	return nil
 }
@@ -219,6 +250,9 @@ func Open(dsn string, rec *Recorder) *sql.DB { return sql.OpenDB(NewConnector(ds
 func (c *Connector) Driver() driver.Driver { return c.drv }
 
 func (c *Connector) Connect(ctx context.Context) (driver.Conn, error) {
+	if c.Rec.Crashed() {
+		return nil, errors.New("verif: no connection after the simulated crash")
+	}
 	base, err := (&sqlite3.SQLiteDriver{}).Open(c.DSN)
 	if err != nil {
 		return nil, err
@@ -226,7 +260,13 @@ func (c *Connector) Connect(ctx context.Context) (driver.Conn, error) {
 	cn := &conn{base: base.(*sqlite3.SQLiteConn), rec: c.Rec, id: c.Rec.nextID()}
 	ev := &Event{Kind: KConnect, Conn: cn.id}
 	idx := c.Rec.record(ev)
-	c.Rec.finish(idx, ev.Seq, nil, false, func() { c.Rec.OpenConns++ })
+	c.Rec.finish(idx, ev.Seq, nil, false, func() {
+		c.Rec.OpenConns++
+		if c.Rec.live == nil {
+			c.Rec.live = map[int64]*conn{}
+		}
+		c.Rec.live[cn.id] = cn
+	})
 	return cn, nil
 }
 
@@ -284,7 +324,10 @@ func (c *conn) Close() error {
 	e := c.ev(nil, KConnClose, "", nil)
 	idx := c.rec.record(e)
 	err := c.base.Close()
-	c.rec.finish(idx, e.Seq, err, false, func() { c.rec.OpenConns-- })
+	c.rec.finish(idx, e.Seq, err, false, func() {
+		c.rec.OpenConns--
+		delete(c.rec.live, c.id)
+	})
 	return err
 }
 
